@@ -90,7 +90,7 @@ def sv_type(sv):
         return sv[2]
     if h in ("cast", "fcast"):
         return sv[1]
-    if h == "cmp" or h == "not" or h == "streq" or h == "ovf":
+    if h == "cmp" or h == "not" or h == "streq" or h == "seqeq" or h == "ovf":
         return "bool"
     return SVTY.get(sv)
 
@@ -121,7 +121,7 @@ def subterms(sv, depth=0):
 
 
 SV_HEADS = {"vagg", "k", "param", "ld", "call", "bin", "cmp", "not", "neg", "cast", "fcast", "discr", "agg", "ref", "proj", "phi",
-            "upd", "try", "elem", "ovf", "streq", "min", "max", "fresh", "model"}
+            "upd", "try", "elem", "ovf", "streq", "seqeq", "min", "max", "fresh", "model"}
 
 
 def sv_str(sv, depth=0):
@@ -175,8 +175,8 @@ def sv_str(sv, depth=0):
         return "elem@%s%s" % (site_str(sv[1]), "" if len(sv) < 3 or sv[2] is None else "[%s]" % sv[2])
     if h in ("min", "max"):
         return "%s(%s, %s)" % (h, r(sv[2]), r(sv[3]))
-    if h == "streq":
-        return "streq(%s, %s)" % (r(sv[1]), r(sv[2]))
+    if h == "streq" or h == "seqeq":
+        return "%s(%s, %s)" % (h, r(sv[1]), r(sv[2]))
     if h == "model":
         return "%s(%s)" % (sv[1], ", ".join(r(x) for x in sv[2:]))
     return str(sv)
@@ -422,7 +422,7 @@ class State:
             if isinstance(v, int):
                 return Dom(v, v)
             return TOP
-        if h == "cmp" or h == "not" or h == "streq" or h == "ovf":
+        if h == "cmp" or h == "not" or h == "streq" or h == "seqeq" or h == "ovf":
             return Dom(0, 1)
         if (h == "ld" and sv[1][1] and sv[1][1][-1] == ("len",)) or (h == "proj" and sv[2] and sv[2][-1] == ("len",)):
             # the length of a slice / Vec / String: allocations never exceed isize::MAX bytes (std::alloc / slice documentation)
